@@ -76,7 +76,9 @@ func genConfig(r *rng) cfgCase {
 		if r.intn(3) == 0 {
 			// nothing validates feed entries at start-up, so whatever a user may have typed there
 			// (nothing, a lone sigil, half a handle, not a URL) has to be harmless when the feed is opened
-			odd := []string{"", " ", "@", "!", "@@", "@nobody", "!@", "@@h1.example", "@u1@", "nonsense", "https://", "https:", "acct:u1@h1.example", "@u1@h1.example@h2.example", "@u1@h1.example"}
+			odd := []string{"", " ", "@", "!", "@@", "@nobody", "!@", "@@h1.example", "@u1@", "nonsense", "https://", "https:", "acct:u1@h1.example", "@u1@h1.example@h2.example", "@u1@h1.example",
+				// local files (legal feed entries): empty, a few bytes, not JSON, a saved object, missing, a directory, a device
+				"@@DIR@@/files/empty", "@@DIR@@/files/bom1", "@@DIR@@/files/bom2", "@@DIR@@/files/bom3", "@@DIR@@/files/one", "@@DIR@@/files/text", "@@DIR@@/files/actor.json", "@@DIR@@/files/missing", "@@DIR@@/files", "/dev/null"}
 			var v []string
 			for n := 1 + r.intn(3); n > 0; n-- {
 				v = append(v, odd[r.intn(len(odd))])
